@@ -51,7 +51,7 @@ Record coll := mkColl {
   ws_dollar : re
 }.
 
-Inductive err := OutOfFuel | AssertFail | IndexError | AttrError.
+Inductive err := OutOfFuel | AssertFail | IndexError | AttrError | Guard.
 Inductive result (A : Type) := Ok (a : A) | Err (e : err).
 Arguments Ok {A}. Arguments Err {A}.
 
@@ -170,8 +170,10 @@ Fixpoint close_fstring (before stack : list fnode) (rest : str) (lnum col : N) (
     let k := lstrip_len rest in
     if starts_with (quote n) (from rest k) then
       match prev_lines n with
-      | [] => Ok (Some (mkTok FSTRING_END (quote n) lnum (col + k) (addp ++ upto rest k),
-                         len (quote n) + k, before))
+      | [] => if forallb (fun f => match prev_lines f with [] => true | _ => false end) (before ++ t)     (* guard G3 *)
+              then Ok (Some (mkTok FSTRING_END (quote n) lnum (col + k) (addp ++ upto rest k),
+                              len (quote n) + k, before))
+              else Err Guard
       | _ => Err AssertFail
       end
     else close_fstring (before ++ [n]) t rest lnum col addp
@@ -213,231 +215,255 @@ Definition bsl : N := 92. Definition nl : N := 10. Definition cr : N := 13. Defi
 Definition dot : N := 46. Definition colon : N := 58.
 Definition digits : list N := [48;49;50;51;52;53;54;55;56;57].
 
-(* one iteration of `while pos < max_` : returns new state, emitted tokens, and how to go on *)
-Definition body (s : st) (line : str) (pos : N) : result (st * list Token * loop_end) :=
-  (* part 1: f-string text / end *)
-  let part1 : result (st * list Token * option loop_end * N) :=
-    match last_opt (fstack s) with
-    | None => Ok (s, [], None, pos)
-    | Some tos =>
-      let after_string : result (st * list Token * option loop_end * N) :=
-        if negb (in_expr tos) then
-          match find_fstring_string (fstack s) tos line (lnum s) pos with
-          | Err x => Err x
-          | Ok (string, pos', tos') =>
-            match string with
-            | _ :: _ =>
-              let tos'' := mkF (quote tos') (parens tos') [] (last_start tos') (spec_count tos') in
-              Ok (upd_f s (upd_top (fstack s) tos''),
-                  [mkTok FSTRING_STRING string (fst (last_start tos')) (snd (last_start tos')) []],
-                  Some (Continue pos'), pos')
-            | [] =>
-              let s' := upd_f s (upd_top (fstack s) tos') in
-              if pos' =? max_ s then Ok (s', [], Some Break, pos') else Ok (s', [], None, pos')
-            end
-          end
-        else Ok (s, [], None, pos) in
-      match after_string with
+(* ---- guards ----
+   The tiling theorem (TokTiles.v) needs a few facts about f-string bookkeeping that hold on every
+   state the tokenizer reaches but whose proof would need deep reasoning about the f-string regexes.
+   They are made explicit as guards: where the Python code relies on them silently the model returns
+   `Err Guard`.  The correspondence stream shows that no generated input ever produces Guard. *)
+Definition fpend (fs : list fnode) : str := concat (map prev_lines fs).
+Definition no_pending (fs : list fnode) : bool :=
+  forallb (fun f => match prev_lines f with [] => true | _ => false end) fs.
+Definition is_nil {A} (l : list A) : bool := match l with [] => true | _ => false end.
+
+(* part 1 of an iteration: f-string text, then a closing quote *)
+Definition fs_text (s : st) (tos : fnode) (line : str) (pos : N) : result (st * list Token * option loop_end * N) :=
+  if negb (in_expr tos) then
+    match find_fstring_string (fstack s) tos line (lnum s) pos with
+    | Err x => Err x
+    | Ok (string, pos', tos') =>
+      match string with
+      | _ :: _ =>
+        if is_nil (addp s) && no_pending (removelast (fstack s)) then      (* guard G1 *)
+          let tos'' := mkF (quote tos') (parens tos') [] (last_start tos') (spec_count tos') in
+          Ok (upd_f s (upd_top (fstack s) tos''),
+              [mkTok FSTRING_STRING string (fst (last_start tos')) (snd (last_start tos')) []],
+              Some (Continue pos'), pos')
+        else Err Guard
+      | [] =>
+        let s' := upd_f s (upd_top (fstack s) tos') in
+        if pos' =? max_ s then Ok (s', [], Some Break, pos') else Ok (s', [], None, pos')
+      end
+    end
+  else Ok (s, [], None, pos).
+
+Definition fs_part (s : st) (line : str) (pos : N) : result (st * list Token * option loop_end * N) :=
+  match last_opt (fstack s) with
+  | None => Ok (s, [], None, pos)
+  | Some tos =>
+    match fs_text s tos line pos with
+    | Err x => Err x
+    | Ok (s1, toks, Some e, p) => Ok (s1, toks, Some e, p)
+    | Ok (s1, toks, None, p) =>
+      match close_fstring [] (fstack s1) (from line p) (lnum s1) p (addp s1) with
       | Err x => Err x
-      | Ok (s1, toks, Some e, p) => Ok (s1, toks, Some e, p)
-      | Ok (s1, toks, None, p) =>
-        match close_fstring [] (fstack s1) (from line p) (lnum s1) p (addp s1) with
+      | Ok None => Ok (s1, toks, None, p)
+      | Ok (Some (tok, qlen, remaining)) =>
+        Ok (upd_addp (upd_f s1 remaining) [], toks ++ [tok], Some (Continue (p + qlen)), p + qlen)
+      end
+    end
+  end.
+
+(* the pseudo-token match: Some (prefix, start, end, token, has_group3), start, initial character *)
+Definition pm_info (s1 : st) (line : str) (pos : N) : result (option (str * N * N * str * bool) * N * N) :=
+  let sl : result N :=
+    match fstack s1 with [] => Ok (len line) | _ => string_line_len (fstack s1) line pos (len line) end in
+  match sl with
+  | Err x => Err x
+  | Ok slen =>
+    match rmatch_at (pseudo C) (upto line slen) pos with
+    | Some (_, cs) =>
+      match grp 1 cs, grp 2 cs with
+      | Some (a1, b1), Some (a2, b2) =>
+        let pfx := addp s1 ++ sub line a1 b1 in
+        let token := sub line a2 b2 in
+        let has3 := match grp 3 cs with Some _ => true | None => false end in
+        Ok (Some (pfx, a2, b2, token, has3), a2, match token with c :: _ => c | [] => 0 end)
+      | _, _ => Err AttrError
+      end
+    | None =>
+      match rmatch_at (whitespace C) line pos with
+      | Some (e, _) => match nth_error line (N.to_nat e) with
+                       | Some c => Ok (None, e, c) | None => Err IndexError end
+      | None => Err AttrError
+      end
+    end
+  end.
+
+(* indentation handling at the first token of a logical line *)
+Definition indent_part (s2 : st) (is_pm : bool) (initial start : N) (spos : N * N) : result (st * list Token) :=
+  if new_line s2 && negb (chr_in initial [cr; nl; hash]) && (negb (initial =? bsl) || negb is_pm) then
+    let s3 := mkSt (paren s2) (indents s2) (contstr s2) (contstr_start s2) (endprog s2) false (prefix s2) (addp s2) (fstack s2) (lnum s2) (max_ s2) in
+    if (paren s3 =? 0) && match fstack s3 with [] => true | _ => false end then
+      match last_opt (indents s3) with
+      | None => Err IndexError
+      | Some top =>
+        let '(inds, t0) := if top <? start then (indents s3 ++ [start], [mkTok INDENT [] (fst spos) (snd spos) []]) else (indents s3, []) in
+        match dedent_if_necessary start (lnum s3) spos inds with
         | Err x => Err x
-        | Ok None => Ok (s1, toks, None, p)
-        | Ok (Some (tok, qlen, remaining)) =>
-          Ok (upd_addp (upd_f s1 remaining) [], toks ++ [tok], Some (Continue (p + qlen)), p + qlen)
+        | Ok (inds', t1) =>
+          Ok (mkSt (paren s3) inds' (contstr s3) (contstr_start s3) (endprog s3) (new_line s3) (prefix s3) (addp s3) (fstack s3) (lnum s3) (max_ s3), t0 ++ t1)
         end
       end
-    end in
-  match part1 with
+    else Ok (s3, [])
+  else Ok (s2, []).
+
+(* no pseudo match: one error token *)
+Definition error_token (s3 : st) (toks : list Token) (line : str) (pos : N) (spos : N * N) : result (st * list Token * loop_end) :=
+  match rmatch_at (whitespace C) line pos with
+  | None => Err AttrError
+  | Some (e, _) =>
+    let dd : result (list N * list Token) :=
+      if new_line s3 && (paren s3 =? 0) && match fstack s3 with [] => true | _ => false end
+      then dedent_if_necessary e (lnum s3) spos (indents s3) else Ok (indents s3, []) in
+    match dd with
+    | Err x => Err x
+    | Ok (inds, t3) =>
+      match nth_error line (N.to_nat e) with
+      | None => Err IndexError
+      | Some c =>
+        Ok (mkSt (paren s3) inds (contstr s3) (contstr_start s3) (endprog s3) false (prefix s3) [] (fstack s3) (lnum s3) (max_ s3),
+            toks ++ t3 ++ [mkTok ERRORTOKEN [c] (lnum s3) e (addp s3 ++ sub line pos e)],
+            Continue (e + 1))
+      end
+    end
+  end.
+
+(* the classification of a matched pseudo token *)
+Definition classify (s3 : st) (toks : list Token) (line : str) (pfx : str) (start epos : N) (token : str) (has3 : bool)
+           (initial : N) (spos : N * N) : result (st * list Token * loop_end) :=
+  let emit := fun (t : ttype) (tk : str) => mkTok t tk (fst spos) (snd spos) pfx in
+  let no_fs := match fstack s3 with [] => true | _ => false end in
+  if chr_in initial digits || ((initial =? dot) && negb (str_eqb token [dot]) && negb (str_eqb token [dot;dot;dot])) then
+    Ok (s3, toks ++ [emit NUMBER token], Continue epos)
+  else if has3 then
+    let brk : result (st * list Token) :=
+      if mem_str token (always_break C) && (negb no_fs || negb (paren s3 =? 0)) then
+        let s4 := mkSt 0 (indents s3) (contstr s3) (contstr_start s3) (endprog s3) (new_line s3) (prefix s3) (addp s3) [] (lnum s3) (max_ s3) in
+        match rmatch_at (ws_dollar C) (upto line start) 0 with
+        | Some (e, _) =>
+          match dedent_if_necessary e (lnum s4) spos (indents s4) with
+          | Err x => Err x
+          | Ok (inds, t) => Ok (mkSt 0 inds (contstr s4) (contstr_start s4) (endprog s4) (new_line s4) (prefix s4) (addp s4) [] (lnum s4) (max_ s4), t)
+          end
+        | None => Ok (s4, [])
+        end
+      else Ok (s3, []) in
+    match brk with
+    | Err x => Err x
+    | Ok (s4, t4) =>
+      if isident token then Ok (s4, toks ++ t4 ++ [emit NAME token], Continue epos)
+      else Ok (s4, toks ++ t4 ++ split_illegal token 0 [] false spos pfx (fst spos) (snd spos), Continue epos)
+    end
+  else if chr_in initial [cr; nl] then
+    let fs := if existsb (fun f => negb (allow_multiline f)) (fstack s3) then [] else fstack s3 in
+    let nofs := match fs with [] => true | _ => false end in
+    if negb (new_line s3) && (paren s3 =? 0) && nofs then
+      Ok (mkSt (paren s3) (indents s3) (contstr s3) (contstr_start s3) (endprog s3) true (prefix s3) (addp s3) fs (lnum s3) (max_ s3),
+          toks ++ [emit NEWLINE token], Continue epos)
+    else
+      Ok (mkSt (paren s3) (indents s3) (contstr s3) (contstr_start s3) (endprog s3) true (prefix s3) (pfx ++ token) fs (lnum s3) (max_ s3),
+          toks, Continue epos)
+  else if initial =? hash then
+    if match last_opt (fstack s3) with Some f => in_expr f | None => false end then
+      Ok (s3, toks ++ [emit ERRORTOKEN [initial]], Continue (start + 1))
+    else Ok (upd_addp s3 (pfx ++ token), toks, Continue epos)
+  else if mem_str token (triple_quoted C) then
+    match endpat token with
+    | None => Err AttrError
+    | Some r =>
+      match rmatch_at r line epos with
+      | Some (e, _) => Ok (mkSt (paren s3) (indents s3) (contstr s3) (contstr_start s3) (Some r) (new_line s3) (prefix s3) (addp s3) (fstack s3) (lnum s3) (max_ s3),
+                           toks ++ [emit STRING (sub line start e)], Continue e)
+      | None =>
+        Ok (mkSt (paren s3) (indents s3) (from line start) spos (Some r) (new_line s3) (prefix s3) (addp s3) (fstack s3) (lnum s3) (max_ s3),
+            toks, Break)
+      end
+    end
+  else if mem_str [initial] (single_quoted C) || mem_str (upto token 2) (single_quoted C) || mem_str (upto token 3) (single_quoted C) then
+    if match last_chr token with Some c => chr_in c [cr; nl] | None => false end then
+      let ep := match endpat [initial] with
+                | Some r => Some r
+                | None => match nth_error token 1 with
+                          | Some c1 => match endpat [c1] with
+                                       | Some r => Some r
+                                       | None => match nth_error token 2 with Some c2 => endpat [c2] | None => None end
+                                       end
+                          | None => None end
+                end in
+      Ok (mkSt (paren s3) (indents s3) (from line start) spos ep (new_line s3) (prefix s3) (addp s3) (fstack s3) (lnum s3) (max_ s3),
+          toks, Break)
+    else Ok (s3, toks ++ [emit STRING token], Continue epos)
+  else
+    match assoc token (fstring_map C) with
+    | Some q =>
+      Ok (upd_f s3 (fstack s3 ++ [mkF q 0%Z [] (0, 0) 0%Z]), toks ++ [emit FSTRING_START token], Continue epos)
+    | None =>
+      let rest := from line start in
+      if (initial =? bsl) && (str_eqb rest [bsl; nl] || str_eqb rest [bsl; cr; nl] || str_eqb rest [bsl; cr]) then
+        Ok (upd_addp s3 (addp s3 ++ pfx ++ rest), toks, Break)
+      else
+        (* operators *)
+        let open := is_substr token [40; 91; 123] in
+        let close := is_substr token [41; 93; 125] in
+        match last_opt (fstack s3) with
+        | Some f =>
+          if open then
+            Ok (upd_f s3 (upd_top (fstack s3) (mkF (quote f) (parens f + 1)%Z (prev_lines f) (last_start f) (spec_count f))),
+                toks ++ [emit OP token], Continue epos)
+          else if close then
+            let p' := (parens f - 1)%Z in
+            let f' := if (p' =? 0)%Z then mkF (quote f) 0%Z (prev_lines f) (last_start f) 0%Z
+                      else mkF (quote f) p' (prev_lines f) (last_start f) (spec_count f) in
+            Ok (upd_f s3 (upd_top (fstack s3) f'), toks ++ [emit OP token], Continue epos)
+          else if starts_with [colon] token && (parens f - spec_count f =? 1)%Z then
+            Ok (upd_f s3 (upd_top (fstack s3) (mkF (quote f) (parens f) (prev_lines f) (last_start f) (spec_count f + 1)%Z)),
+                toks ++ [emit OP [colon]], Continue (start + 1))
+          else Ok (s3, toks ++ [emit OP token], Continue epos)
+        | None =>
+          if open then
+            Ok (mkSt (paren s3 + 1) (indents s3) (contstr s3) (contstr_start s3) (endprog s3) (new_line s3) (prefix s3) (addp s3) (fstack s3) (lnum s3) (max_ s3),
+                toks ++ [emit OP token], Continue epos)
+          else if close then
+            Ok (mkSt (if paren s3 =? 0 then 0 else paren s3 - 1) (indents s3) (contstr s3) (contstr_start s3) (endprog s3) (new_line s3) (prefix s3) (addp s3) (fstack s3) (lnum s3) (max_ s3),
+                toks ++ [emit OP token], Continue epos)
+          else Ok (s3, toks ++ [emit OP token], Continue epos)
+        end
+    end.
+
+(* one iteration of `while pos < max_` : returns new state, emitted tokens, and how to go on *)
+Definition body (s : st) (line : str) (pos : N) : result (st * list Token * loop_end) :=
+  match fs_part s line pos with
   | Err x => Err x
   | Ok (s1, toks1, Some e, _) => Ok (s1, toks1, e)
   | Ok (s1, toks1, None, pos) =>
-    (* part 2: pseudo match *)
-    let sl : result N :=
-      match fstack s1 with [] => Ok (len line) | _ => string_line_len (fstack s1) line pos (len line) end in
-    match sl with
+    if negb (no_pending (fstack s1)) then Err Guard else                 (* guard G9: pending f-string text was flushed *)
+    match pm_info s1 line pos with
     | Err x => Err x
-    | Ok slen =>
-      let pm := rmatch_at (pseudo C) (upto line slen) pos in
-      (* values common to both cases *)
-      let info : result (option (str * N * N * str * bool) * st * N * N) :=
-        (* (Some (prefix, start, endpos, token, has_group3), state, start, initial) *)
-        match pm with
-        | Some (_, cs) =>
-          match grp 1 cs, grp 2 cs with
-          | Some (a1, b1), Some (a2, b2) =>
-            let pfx := addp s1 ++ sub line a1 b1 in
-            let token := sub line a2 b2 in
-            let has3 := match grp 3 cs with Some _ => true | None => false end in
-            Ok (Some (pfx, a2, b2, token, has3), s1, a2, match token with c :: _ => c | [] => 0 end)
-          | _, _ => Err AttrError
-          end
-        | None =>
-          match rmatch_at (whitespace C) line pos with
-          | Some (e, _) => match nth_error line (N.to_nat e) with
-                           | Some c => Ok (None, s1, e, c) | None => Err IndexError end
-          | None => Err AttrError
-          end
-        end in
-      match info with
-      | Err x => Err x
-      | Ok (pmi, s1, start, initial) =>
-        (* token == '' case *)
-        match pmi with
-        | Some (pfx, _, _, [], _) =>
-          match pfx with
-          | [] => Err AssertFail
-          | _ => Ok (mkSt (paren s1) (indents s1) (contstr s1) (contstr_start s1) (endprog s1) (new_line s1) pfx pfx (fstack s1) (lnum s1) (max_ s1), toks1, Break)
-          end
+    | Ok (pmi, start, initial) =>
+      match pmi with
+      | Some (pfx, _, epos, [], _) =>
+        (* token == '' : only white space / comments left on this line *)
+        match pfx with
+        | [] => Err AssertFail
         | _ =>
-          (* after a pseudomatch: prefix = pfx, additional_prefix = '' *)
-          let s2 := match pmi with
-                    | Some (pfx, _, _, _, _) => mkSt (paren s1) (indents s1) (contstr s1) (contstr_start s1) (endprog s1) (new_line s1) pfx [] (fstack s1) (lnum s1) (max_ s1)
-                    | None => s1 end in
-          let spos := (lnum s2, start) in
-          let is_pm := match pmi with Some _ => true | None => false end in
-          (* indentation handling *)
-          let ind : result (st * list Token) :=
-            if new_line s2 && negb (chr_in initial [cr; nl; hash]) && (negb (initial =? bsl) || negb is_pm) then
-              let s3 := mkSt (paren s2) (indents s2) (contstr s2) (contstr_start s2) (endprog s2) false (prefix s2) (addp s2) (fstack s2) (lnum s2) (max_ s2) in
-              if (paren s3 =? 0) && match fstack s3 with [] => true | _ => false end then
-                match last_opt (indents s3) with
-                | None => Err IndexError
-                | Some top =>
-                  let '(inds, t0) := if top <? start then (indents s3 ++ [start], [mkTok INDENT [] (fst spos) (snd spos) []]) else (indents s3, []) in
-                  match dedent_if_necessary start (lnum s3) spos inds with
-                  | Err x => Err x
-                  | Ok (inds', t1) =>
-                    Ok (mkSt (paren s3) inds' (contstr s3) (contstr_start s3) (endprog s3) (new_line s3) (prefix s3) (addp s3) (fstack s3) (lnum s3) (max_ s3), t0 ++ t1)
-                  end
-                end
-              else Ok (s3, [])
-            else Ok (s2, []) in
-          match ind with
-          | Err x => Err x
-          | Ok (s3, toks2) =>
-            let toks := toks1 ++ toks2 in
-            match pmi with
-            | None =>
-              (* no pseudomatch: error token *)
-              match rmatch_at (whitespace C) line pos with
-              | None => Err AttrError
-              | Some (e, _) =>
-                let dd : result (list N * list Token) :=
-                  if new_line s3 && (paren s3 =? 0) && match fstack s3 with [] => true | _ => false end
-                  then dedent_if_necessary e (lnum s3) spos (indents s3) else Ok (indents s3, []) in
-                match dd with
-                | Err x => Err x
-                | Ok (inds, t3) =>
-                  match nth_error line (N.to_nat e) with
-                  | None => Err IndexError
-                  | Some c =>
-                    Ok (mkSt (paren s3) inds (contstr s3) (contstr_start s3) (endprog s3) false (prefix s3) [] (fstack s3) (lnum s3) (max_ s3),
-                        toks ++ t3 ++ [mkTok ERRORTOKEN [c] (lnum s3) e (addp s3 ++ sub line pos e)],
-                        Continue (e + 1))
-                  end
-                end
-              end
-            | Some (pfx, _, epos, token, has3) =>
-              let emit := fun (t : ttype) (tk : str) => mkTok t tk (fst spos) (snd spos) pfx in
-              let no_fs := match fstack s3 with [] => true | _ => false end in
-              if chr_in initial digits || ((initial =? dot) && negb (str_eqb token [dot]) && negb (str_eqb token [dot;dot;dot])) then
-                Ok (s3, toks ++ [emit NUMBER token], Continue epos)
-              else if has3 then
-                let brk : result (st * list Token) :=
-                  if mem_str token (always_break C) && (negb no_fs || negb (paren s3 =? 0)) then
-                    let s4 := mkSt 0 (indents s3) (contstr s3) (contstr_start s3) (endprog s3) (new_line s3) (prefix s3) (addp s3) [] (lnum s3) (max_ s3) in
-                    match rmatch_at (ws_dollar C) (upto line start) 0 with
-                    | Some (e, _) =>
-                      match dedent_if_necessary e (lnum s4) spos (indents s4) with
-                      | Err x => Err x
-                      | Ok (inds, t) => Ok (mkSt 0 inds (contstr s4) (contstr_start s4) (endprog s4) (new_line s4) (prefix s4) (addp s4) [] (lnum s4) (max_ s4), t)
-                      end
-                    | None => Ok (s4, [])
-                    end
-                  else Ok (s3, []) in
-                match brk with
-                | Err x => Err x
-                | Ok (s4, t4) =>
-                  if isident token then Ok (s4, toks ++ t4 ++ [emit NAME token], Continue epos)
-                  else Ok (s4, toks ++ t4 ++ split_illegal token 0 [] false spos pfx (fst spos) (snd spos), Continue epos)
-                end
-              else if chr_in initial [cr; nl] then
-                let fs := if existsb (fun f => negb (allow_multiline f)) (fstack s3) then [] else fstack s3 in
-                let nofs := match fs with [] => true | _ => false end in
-                if negb (new_line s3) && (paren s3 =? 0) && nofs then
-                  Ok (mkSt (paren s3) (indents s3) (contstr s3) (contstr_start s3) (endprog s3) true (prefix s3) (addp s3) fs (lnum s3) (max_ s3),
-                      toks ++ [emit NEWLINE token], Continue epos)
-                else
-                  Ok (mkSt (paren s3) (indents s3) (contstr s3) (contstr_start s3) (endprog s3) true (prefix s3) (pfx ++ token) fs (lnum s3) (max_ s3),
-                      toks, Continue epos)
-              else if initial =? hash then
-                if match last_opt (fstack s3) with Some f => in_expr f | None => false end then
-                  Ok (s3, toks ++ [emit ERRORTOKEN [initial]], Continue (start + 1))
-                else Ok (upd_addp s3 (pfx ++ token), toks, Continue epos)
-              else if mem_str token (triple_quoted C) then
-                match endpat token with
-                | None => Err AttrError
-                | Some r =>
-                  match rmatch_at r line epos with
-                  | Some (e, _) => Ok (mkSt (paren s3) (indents s3) (contstr s3) (contstr_start s3) (Some r) (new_line s3) (prefix s3) (addp s3) (fstack s3) (lnum s3) (max_ s3),
-                                       toks ++ [emit STRING (sub line start e)], Continue e)
-                  | None => Ok (mkSt (paren s3) (indents s3) (from line start) spos (Some r) (new_line s3) (prefix s3) (addp s3) (fstack s3) (lnum s3) (max_ s3),
-                                toks, Break)
-                  end
-                end
-              else if mem_str [initial] (single_quoted C) || mem_str (upto token 2) (single_quoted C) || mem_str (upto token 3) (single_quoted C) then
-                if match last_chr token with Some c => chr_in c [cr; nl] | None => false end then
-                  let ep := match endpat [initial] with
-                            | Some r => Some r
-                            | None => match nth_error token 1 with
-                                      | Some c1 => match endpat [c1] with
-                                                   | Some r => Some r
-                                                   | None => match nth_error token 2 with Some c2 => endpat [c2] | None => None end
-                                                   end
-                                      | None => None end
-                            end in
-                  Ok (mkSt (paren s3) (indents s3) (from line start) spos ep (new_line s3) (prefix s3) (addp s3) (fstack s3) (lnum s3) (max_ s3),
-                      toks, Break)
-                else Ok (s3, toks ++ [emit STRING token], Continue epos)
-              else
-                match assoc token (fstring_map C) with
-                | Some q =>
-                  Ok (upd_f s3 (fstack s3 ++ [mkF q 0%Z [] (0, 0) 0%Z]), toks ++ [emit FSTRING_START token], Continue epos)
-                | None =>
-                  let rest := from line start in
-                  if (initial =? bsl) && (str_eqb rest [bsl; nl] || str_eqb rest [bsl; cr; nl] || str_eqb rest [bsl; cr]) then
-                    Ok (upd_addp s3 (addp s3 ++ pfx ++ rest), toks, Break)
-                  else
-                    (* operators *)
-                    let open := is_substr token [40; 91; 123] in
-                    let close := is_substr token [41; 93; 125] in
-                    match last_opt (fstack s3) with
-                    | Some f =>
-                      if open then
-                        Ok (upd_f s3 (upd_top (fstack s3) (mkF (quote f) (parens f + 1)%Z (prev_lines f) (last_start f) (spec_count f))),
-                            toks ++ [emit OP token], Continue epos)
-                      else if close then
-                        let p' := (parens f - 1)%Z in
-                        let f' := if (p' =? 0)%Z then mkF (quote f) 0%Z (prev_lines f) (last_start f) 0%Z
-                                  else mkF (quote f) p' (prev_lines f) (last_start f) (spec_count f) in
-                        Ok (upd_f s3 (upd_top (fstack s3) f'), toks ++ [emit OP token], Continue epos)
-                      else if starts_with [colon] token && (parens f - spec_count f =? 1)%Z then
-                        Ok (upd_f s3 (upd_top (fstack s3) (mkF (quote f) (parens f) (prev_lines f) (last_start f) (spec_count f + 1)%Z)),
-                            toks ++ [emit OP [colon]], Continue (start + 1))
-                      else Ok (s3, toks ++ [emit OP token], Continue epos)
-                    | None =>
-                      if open then
-                        Ok (mkSt (paren s3 + 1) (indents s3) (contstr s3) (contstr_start s3) (endprog s3) (new_line s3) (prefix s3) (addp s3) (fstack s3) (lnum s3) (max_ s3),
-                            toks ++ [emit OP token], Continue epos)
-                      else if close then
-                        Ok (mkSt (if paren s3 =? 0 then 0 else paren s3 - 1) (indents s3) (contstr s3) (contstr_start s3) (endprog s3) (new_line s3) (prefix s3) (addp s3) (fstack s3) (lnum s3) (max_ s3),
-                            toks ++ [emit OP token], Continue epos)
-                      else Ok (s3, toks ++ [emit OP token], Continue epos)
-                    end
-                end
-            end
+          if epos =? len line then                                       (* guard G8 *)
+            Ok (mkSt (paren s1) (indents s1) (contstr s1) (contstr_start s1) (endprog s1) (new_line s1) pfx pfx (fstack s1) (lnum s1) (max_ s1), toks1, Break)
+          else Err Guard
+        end
+      | _ =>
+        (* after a pseudomatch: prefix = pfx, additional_prefix = '' *)
+        let s2 := match pmi with
+                  | Some (pfx, _, _, _, _) => mkSt (paren s1) (indents s1) (contstr s1) (contstr_start s1) (endprog s1) (new_line s1) pfx [] (fstack s1) (lnum s1) (max_ s1)
+                  | None => s1 end in
+        let spos := (lnum s2, start) in
+        let is_pm := match pmi with Some _ => true | None => false end in
+        match indent_part s2 is_pm initial start spos with
+        | Err x => Err x
+        | Ok (s3, toks2) =>
+          let toks := toks1 ++ toks2 in
+          match pmi with
+          | None => error_token s3 toks line pos spos
+          | Some (pfx, _, epos, token, has3) => classify s3 toks line pfx start epos token has3 initial spos
           end
         end
       end
@@ -514,7 +540,11 @@ Definition tokenize_lines (lines : list str) (indents0 : list N) (start_line sta
                           | _ => [mkTok FSTRING_STRING (prev_lines f) (fst (last_start f)) (snd (last_start f)) []] end
               | None => [] end in
     let t3 := map (fun _ => mkTok DEDENT [] (lnum s) (max_ s) []) (tl (indents s)) in
-    Ok (toks ++ t1 ++ t2 ++ t3 ++ [mkTok ENDMARKER [] (lnum s) (max_ s) (addp s)])
+    (* guard G7: pending f-string text is flushed before the end marker's prefix *)
+    if forallb (fun f => match prev_lines f with [] => true | _ => false end) (removelast (fstack s))
+       && (match t2 with [] => true | _ => match addp s with [] => true | _ => false end end)
+    then Ok (toks ++ t1 ++ t2 ++ t3 ++ [mkTok ENDMARKER [] (lnum s) (max_ s) (addp s)])
+    else Err Guard
   end.
 
 End Tokenizer.
